@@ -249,6 +249,16 @@ struct Scripted {
     notify: Notify,
     /// the value this stage's `process` rejects with an error (none: accepts everything)
     reject: Option<u32>,
+    /// the value this stage accepts (`Ok`) but never emits, like a de-duplicating or filtering
+    /// processor; the chain then has fewer outputs than inputs
+    swallow: Option<u32>,
+    /// every accepted item yields two outputs (a splitting processor): more outputs than inputs
+    fan_out: bool,
+}
+
+/// Second output of a fan-out stage for input `x`.
+fn stage_fn2(stage: usize, x: u32) -> u32 {
+    x * 10 + stage as u32 + 6
 }
 
 fn reject_msg(stage: usize, x: u32) -> String {
@@ -292,8 +302,17 @@ impl Processor<u32> for Scripted {
             self.env.ev(Ev::ProcessRejected(self.stage, x));
             return Err(reject_msg(self.stage, x));
         }
+        if self.swallow == Some(x) {
+            guard.done = true;
+            self.env.ev(Ev::ProcessDone(self.stage, x));
+            return Ok(());
+        }
         let v = stage_fn(self.stage, x);
-        if self.kind == Kind::Pairs {
+        if self.fan_out {
+            self.q.borrow_mut().push_back(v);
+            self.q.borrow_mut().push_back(stage_fn2(self.stage, x));
+            self.notify.notify_one();
+        } else if self.kind == Kind::Pairs {
             let partner = self.held.borrow_mut().take();
             match partner {
                 None => *self.held.borrow_mut() = Some(v),
@@ -340,12 +359,17 @@ fn scripted(env: &Rc<Env>, kind: Kind, stage: usize) -> Scripted {
 /// `cfg.reject = Some((stage, input))`: that stage rejects the value the input has become.
 fn scripted_c(env: &Rc<Env>, cfg: &Config, stage: usize) -> Scripted {
     let reject = cfg.reject.filter(|(s, _)| *s == stage).map(|(s, x)| (0..s).fold(x, |v, k| stage_fn(k, v)));
-    scripted_r(env, cfg.kinds[stage], stage, reject)
+    let mut p = scripted_r(env, cfg.kinds[stage], stage, reject);
+    p.swallow = cfg.swallow.filter(|(s, _)| *s == stage).map(|(s, x)| (0..s).fold(x, |v, k| stage_fn(k, v)));
+    p.fan_out = cfg.fan_out == Some(stage);
+    p
 }
 
 fn scripted_r(env: &Rc<Env>, kind: Kind, stage: usize, reject: Option<u32>) -> Scripted {
     Scripted {
         reject,
+        swallow: None,
+        fan_out: false,
         kind,
         stage,
         env: env.clone(),
@@ -451,6 +475,10 @@ struct Config {
     /// (stage, input): that stage's `process` rejects what this input has become; the error is an
     /// output of the chain like any other and has to be yielded exactly once
     reject: Option<(usize, u32)>,
+    /// (stage, input): that stage accepts what this input has become but never emits it
+    swallow: Option<(usize, u32)>,
+    /// this stage emits two outputs per accepted item
+    fan_out: Option<usize>,
 }
 
 impl Config {
@@ -462,9 +490,11 @@ impl Config {
             self.inputs.len(),
             if self.terminates { "none" } else { "pending" },
             self.max_dev,
-            match self.reject {
-                Some((s, x)) => format!(" stage{s}-rejects-input{x}"),
-                None => String::new(),
+            match (self.reject, self.swallow, self.fan_out) {
+                (Some((s, x)), _, _) => format!(" stage{s}-rejects-input{x}"),
+                (_, Some((s, x)), _) => format!(" stage{s}-swallows-input{x}"),
+                (_, _, Some(s)) => format!(" stage{s}-fans-out"),
+                _ => String::new(),
             }
         )
     }
@@ -477,6 +507,8 @@ impl Config {
             "max_delay": self.max_delay,
             "max_dev": self.max_dev,
             "reject": self.reject.map(|(s, x)| vec![s as u64, x as u64]),
+            "swallow": self.swallow.map(|(s, x)| vec![s as u64, x as u64]),
+            "fan_out": self.fan_out,
         })
     }
     fn from_json(v: &Value) -> Option<Config> {
@@ -497,6 +529,8 @@ impl Config {
             max_delay: v.get("max_delay")?.as_u64()? as usize,
             max_dev: v.get("max_dev").and_then(|x| x.as_u64()).unwrap_or(2) as usize,
             reject: v.get("reject").and_then(|r| r.as_array()).and_then(|a| Some((a.first()?.as_u64()? as usize, a.get(1)?.as_u64()? as u32))),
+            swallow: v.get("swallow").and_then(|r| r.as_array()).and_then(|a| Some((a.first()?.as_u64()? as usize, a.get(1)?.as_u64()? as u32))),
+            fan_out: v.get("fan_out").and_then(|x| x.as_u64()).map(|x| x as usize),
         })
     }
     fn all_fifo(&self) -> bool {
@@ -504,6 +538,32 @@ impl Config {
     }
     fn expected(&self, x: u32) -> u32 {
         (0..self.topo.stages()).fold(x, |v, s| stage_fn(s, v))
+    }
+    /// Every output the chain owes for input `x`, each with the value it has after every stage
+    /// (`path[s]` = value emitted by stage s).  One path for 1:1 chains, two behind a fan-out
+    /// stage, none when a stage swallows the item.
+    fn lineages(&self, x: u32) -> Vec<Vec<u32>> {
+        let mut paths: Vec<Vec<u32>> = vec![vec![]];
+        for s in 0..self.topo.stages() {
+            let mut next = vec![];
+            for p in paths {
+                let v = p.last().copied().unwrap_or(x);
+                let swallowed = self.swallow.is_some_and(|(ss, sx)| ss == s && (0..s).fold(sx, |w, k| stage_fn(k, w)) == v);
+                if swallowed {
+                    continue;
+                }
+                let mut a = p.clone();
+                a.push(stage_fn(s, v));
+                next.push(a);
+                if self.fan_out == Some(s) {
+                    let mut b = p.clone();
+                    b.push(stage_fn2(s, v));
+                    next.push(b);
+                }
+            }
+            paths = next;
+        }
+        paths
     }
 }
 
@@ -675,7 +735,7 @@ fn run_inner(cfg: &Config, ch: &Chooser) -> Obs {
 // ------------------------------------------------------------------------------------------
 
 /// Where did the lineage of input `x` stop?  Returns (boundary kind, how).
-fn diagnose(cfg: &Config, log: &[Ev], x: u32) -> (String, String) {
+fn diagnose(cfg: &Config, log: &[Ev], x: u32, path: &[u32]) -> (String, String) {
     if !log.contains(&Ev::Input(x)) {
         return ("input".into(), "never-pulled-from-input-stream".into());
     }
@@ -694,7 +754,7 @@ fn diagnose(cfg: &Config, log: &[Ev], x: u32) -> (String, String) {
                 if cancelled { "process-future-dropped-midway".into() } else { "process-never-completed".into() },
             );
         }
-        let out = stage_fn(s, v);
+        let out = path[s];
         if !log.contains(&Ev::Emit(s, out)) {
             return (format!("stage{s}"), "accepted-but-never-taken-by-next".into());
         }
@@ -768,18 +828,21 @@ fn judge(mv: &mut MinV, cfg: &Config, ch: &Chooser, o: &Obs) {
     }
     let rejected_reached = cfg.reject.is_some_and(|(s, _)| o.log.iter().any(|ev| matches!(ev, Ev::ProcessRejected(st, _) if *st == s)));
     let ok_inputs: Vec<u32> = cfg.inputs.iter().copied().filter(|x| !(rejected_reached && cfg.reject.is_some_and(|(_, r)| r == *x))).collect();
-    let expected: Vec<u32> = ok_inputs.iter().map(|x| cfg.expected(*x)).collect();
+    // every output the chain owes, in input order (behind a fan-out stage both copies, first copy first)
+    let owed: Vec<(u32, Vec<u32>)> = ok_inputs.iter().flat_map(|x| cfg.lineages(*x).into_iter().map(move |p| (*x, p))).collect();
+    let expected: Vec<u32> = owed.iter().map(|(_, p)| *p.last().unwrap()).collect();
     let mut rest = o.outs.clone();
-    let mut missing = vec![];
-    for (i, e) in expected.iter().enumerate() {
+    let mut missing: Vec<(u32, Vec<u32>)> = vec![];
+    for (x, path) in &owed {
+        let e = path.last().unwrap();
         if let Some(p) = rest.iter().position(|v| v == e) {
             rest.remove(p);
         } else {
-            missing.push(ok_inputs[i]);
+            missing.push((*x, path.clone()));
         }
     }
-    for x in &missing {
-        let (boundary, how) = diagnose(cfg, &o.log, *x);
+    for (x, path) in &missing {
+        let (boundary, how) = diagnose(cfg, &o.log, *x, path);
         let class = if how.starts_with("accepted-but") { "stalled" } else { "lost" };
         mv.add(
             format!("{class}/{boundary}/{how}"),
@@ -787,7 +850,7 @@ fn judge(mv: &mut MinV, cfg: &Config, ch: &Chooser, o: &Obs) {
             || {
                 format!(
                     "input {x} (expected output {}) was never yielded: {how} at the {boundary} boundary; {}",
-                    cfg.expected(*x),
+                    path.last().unwrap(),
                     ctx()
                 )
             },
@@ -848,6 +911,8 @@ fn configs(thorough: bool) -> Vec<Config> {
                         max_delay: 2,
                         max_dev: if deep { base_dev + 1 } else { base_dev },
                         reject: None,
+                        swallow: None,
+                        fan_out: None,
                     });
                 }
             }
@@ -873,6 +938,8 @@ fn configs(thorough: bool) -> Vec<Config> {
                     max_delay: 2,
                     max_dev: base_dev,
                     reject: None,
+                    swallow: None,
+                    fan_out: None,
                 });
             }
         }
@@ -894,8 +961,48 @@ fn configs(thorough: bool) -> Vec<Config> {
                         max_delay: 2,
                         max_dev: base_dev,
                         reject: Some((stage, rejected)),
+                        swallow: None,
+                        fan_out: None,
                     });
                 }
+            }
+        }
+    }
+    // chains whose outputs are not one per input: a stage that swallows one item (a filter, a
+    // de-duplication, an orderer whose dependency never arrives) and a stage that emits two
+    // outputs per item (a splitter)
+    for &topo in topos {
+        for stage in 0..topo.stages() {
+            for len in 2..=3u32 {
+                if !thorough && len == 3 && topo.stages() == 3 {
+                    continue;
+                }
+                for swallowed in 1..=len {
+                    v.push(Config {
+                        topo,
+                        kinds: vec![Kind::Fifo; topo.stages()],
+                        inputs: (1..=len).collect(),
+                        terminates: true,
+                        max_delay: 2,
+                        max_dev: base_dev,
+                        reject: None,
+                        swallow: Some((stage, swallowed)),
+                        fan_out: None,
+                    });
+                }
+            }
+            for len in 1..=2u32 {
+                v.push(Config {
+                    topo,
+                    kinds: vec![Kind::Fifo; topo.stages()],
+                    inputs: (1..=len).collect(),
+                    terminates: true,
+                    max_delay: 2,
+                    max_dev: base_dev,
+                    reject: None,
+                    swallow: None,
+                    fan_out: Some(stage),
+                });
             }
         }
     }
